@@ -8,7 +8,12 @@ import time
 
 from . import VERIF_ROOT
 
-EVIDENCE_DIR = os.path.join(VERIF_ROOT, "evidence")
+# evidence/ is only ever written by runs against /repo itself; a run against a scratch worktree (VP_REPO, seeded
+# changes) writes its evidence under scratch/ (git-ignored) so that it can never replace a committed evidence file
+_REPO = os.path.realpath(os.environ.get("VP_REPO", "/repo"))
+EVIDENCE_DIR = os.environ.get("VP_EVIDENCE_DIR") or (
+    os.path.join(VERIF_ROOT, "evidence") if _REPO == "/repo" else os.path.join(VERIF_ROOT, "scratch", "evidence_" + os.path.basename(_REPO))
+)
 REPLAY_DIR = os.path.join(VERIF_ROOT, "replays")
 FINDINGS_FILE = os.path.join(VERIF_ROOT, "known_findings.json")
 
